@@ -64,3 +64,51 @@ Qed.
 
 Theorem C03_idx_of_record : forall n a, (0 < n)%nat -> idx_of (rec_of n a) = a.
 Proof. exact idx_of_rec. Qed.
+
+(* ---------------------------------------------------------------------------------------------
+   Freshness ("catches up once the writer is idle") for every reachable state: any schedule, any
+   release/acquire-legal read choices before the call, crashes, restarts, readers attached at any
+   time, and any number of publications - no bound, the 16-bit wrap included.  If no update is in
+   flight (the latest generation event is the even store of write() call [e_att e]) and reader j
+   is between calls, a call of reader j that now executes sequentially consistently while the
+   writer does nothing returns within cells + 4 accesses, and it returns the record of that call;
+   the cache is served only when the live generation equals the cached generation (the record is
+   already current, or the documented multiple-of-32767 exception). *)
+From CB Require Import SeqlockFresh.
+Open Scope Z_scope.
+
+Theorem C03_fresh_when_idle : forall c ts m o j r q e, safe_cfg c = true -> (0 < c_retries c)%N ->
+  Forall real_token ts -> m_run (m_init c) ts = (m, o) ->
+  nth_error (m_rs m) j = Some r -> r_pc r = RIdle ->
+  latest LGen (w_log (m_w m)) = Some q -> ev (w_log (m_w m)) q = Some e -> e_kind e = KEven ->
+  exists k m' pre ret r', (k <= c_cells c + 4)%nat /\
+    m_run m (repeat (TR j None) k) = (m', pre ++ [ORet j ret (r_cache r')]) /\ Forall is_access pre /\
+    nth_error (m_rs m') j = Some r' /\ r_pc r' = RIdle /\ m_w m' = m_w m /\
+    ((ret = RetFresh /\ r_cache r' = rec_of (c_cells c) (e_att e) /\ r_cache_gen r' = e_val e) \/
+     (ret = RetCache /\ r_cache r' = r_cache r /\ e_val e = r_cache_gen r)).
+Proof. exact fresh_machine. Qed.
+
+(* that call is the newest completed one, and the segment then holds exactly its record *)
+Theorem C03_latest_even_is_newest : forall n L q e, LogInv n L -> latest LGen L = Some q -> ev L q = Some e ->
+  forall p f, ev L p = Some f -> e_kind f = KEven -> (e_att f <= e_att e)%nat.
+Proof. exact latest_even_is_newest. Qed.
+
+Theorem C03_idle_segment_holds_latest_record : forall n L q e, LogInv n L -> LogInv2 L ->
+  latest LGen L = Some q -> ev L q = Some e -> e_kind e = KEven ->
+  forall i, (i < n)%nat -> latest_val (LCell i) L = nth i (rec_of n (e_att e)) 0.
+Proof. exact quiescent_cells. Qed.
+
+(* the invariants used above hold in every reachable state, without any bound on publications *)
+Theorem C03_reachable_invariant_unbounded : forall c ts m o, safe_cfg c = true -> Forall real_token ts ->
+  m_run (m_init c) ts = (m, o) -> MInvF c m.
+Proof. intros c ts m o Hs Hts R. exact (m_run_F c Hs ts (m_init c) m o (MInvF_init c) Hts R). Qed.
+
+(* the documented exception is real: a reader that holds publication 1 (generation 2) and sleeps
+   until the live generation is 2 again is served its cache although publication 3 is current *)
+Example C03_exception_witness :
+  let ts := repeat TW 11 ++ [TNewReader] ++ repeat (TR 0 None) 11 ++ [TJump 65534] ++ repeat TW 11 ++ repeat (TR 0 None) 2 in
+  exists m o, m_run (m_init fixed_cfg) ts = (m, o) /\
+    filter (fun x => match x with ORet _ _ _ => true | _ => false end) o =
+      [ORet 0 RetFresh (rec_of 7 1); ORet 0 RetCache (rec_of 7 1)] /\
+    latest_val LGen (w_log (m_w m)) = 2 /\ map (fun i => latest_val (LCell i) (w_log (m_w m))) (seq 0 7) = rec_of 7 2.
+Proof. eexists _, _. split; [vm_compute; reflexivity|]. split; [vm_compute; reflexivity|]. split; vm_compute; reflexivity. Qed.
